@@ -346,13 +346,16 @@ Definition set_data_only (s : pset) : Prop :=
 Definition data_only (st : bpst) : Prop := set_data_only (bs_set st).
 
 (* ... as long as every marker it receives is a syn or finds the worker refusing the partition *)
-Fixpoint guarded (c : pcfg) (st : bpst) (evs : list bp_event) : Prop :=
+Fixpoint guarded (fx : bool) (c : pcfg) (st : bpst) (evs : list bp_event) : Prop :=
   match evs with
   | [] => True
   | e :: r =>
       (match e with BRecv k m => is_data m = true \/ is_syn m = true \/ refusing st k = true | _ => True end) /\
-      guarded c (bp_step c st e) r
+      guarded fx c (bp_step fx c st e) r
   end.
+(* the markers the partition workers create are syn and fin only (flags 1 or 2) *)
+Definition markers_syn_fin (evs : list bp_event) : Prop :=
+  forall k m, In (BRecv k m) evs -> is_data m = true \/ is_syn m = true \/ is_fin m = true.
 
 Lemma in_part_set k0 x0 ps : forall k x, In (k, x) (part_set k0 x0 ps) -> (k, x) = (k0, x0) \/ In (k, x) ps.
 Proof.
@@ -379,20 +382,39 @@ Proof.
   - rewrite fresh_msgs in Hm'. destruct Hm'.
 Qed.
 
-Lemma recv_decision_data flags : flags = 0 -> forall cl rt, recv_decision flags cl rt <> 0.
-Proof. intros -> cl rt. unfold recv_decision. cbn. destruct (cl || rt); discriminate. Qed.
-
-Theorem buffer_data_only c evs : forall st, data_only st -> guarded c st evs -> data_only (bp_run c st evs).
+Theorem buffer_data_only fx c evs : forall st, data_only st -> guarded fx c st evs -> data_only (bp_run fx c st evs).
 Proof.
   induction evs as [|e evs IH]; intros st D G; [exact D|]. cbn [bp_run fold_left]. destruct G as [G1 G2].
   apply IH; [|exact G2]. clear IH G2. destruct e as [k m| pid ep | k | ]; cbn [bp_step].
   - unfold recv_decision. destruct (Z.land (pm_flags m) 1 =? 1) eqn:Es; [exact D|].
     destruct (bs_closing st || retrying st k) eqn:Er.
-    + destruct (negb (bs_closing st) && is_fin m); exact D.
+    + destruct (negb (bs_closing st) && is_fin m && retrying st k); exact D.
     + destruct G1 as [G1|[G1|G1]].
-      * unfold data_only. cbn [bs_set]. now apply ps_add_data_only.
+      * assert (E2 : Z.land (pm_flags m) 2 =? 2 = false) by (unfold is_data in G1; apply Z.eqb_eq in G1; rewrite G1; reflexivity).
+        rewrite E2, andb_false_r. unfold data_only. cbn [bs_set]. now apply ps_add_data_only.
       * unfold is_syn in G1. congruence.
       * unfold refusing in G1. congruence.
+  - intros k x m [].
+  - intros k' x m Hin Hm. cbn [bs_set s_parts] in Hin. apply in_part_drop in Hin. exact (D _ _ _ Hin Hm).
+  - exact D.
+Qed.
+
+(* with fixes/c04_fin_not_buffered.patch the invariant needs no guard: whatever the worker's state, syn is consumed and
+   fin is bounced *)
+Theorem buffer_data_only_fixed c evs : forall st, data_only st -> markers_syn_fin evs -> data_only (bp_run true c st evs).
+Proof.
+  induction evs as [|e evs IH]; intros st D M; [exact D|]. cbn [bp_run fold_left].
+  apply IH; [|intros k m H; apply (M k m); now right].
+  pose proof (fun k m => M k m) as M1. clear IH. destruct e as [k m| pid ep | k | ]; cbn [bp_step].
+  - specialize (M1 k m (or_introl eq_refl)). unfold recv_decision. destruct (Z.land (pm_flags m) 1 =? 1) eqn:Es; [exact D|].
+    destruct (bs_closing st || retrying st k) eqn:Er.
+    + destruct (negb (bs_closing st) && is_fin m && retrying st k); exact D.
+    + cbn [andb]. destruct (Z.land (pm_flags m) 2 =? 2) eqn:Ef.
+      * destruct (negb (bs_closing st) && is_fin m && retrying st k); exact D.
+      * destruct M1 as [G|[G|G]].
+        -- unfold data_only. cbn [bs_set]. now apply ps_add_data_only.
+        -- unfold is_syn in G. congruence.
+        -- unfold is_fin in G. congruence.
   - intros k x m [].
   - intros k' x m Hin Hm. cbn [bs_set s_parts] in Hin. apply in_part_drop in Hin. exact (D _ _ _ Hin Hm).
   - exact D.
